@@ -1027,6 +1027,29 @@ def _try_h5synth_one(ctx, h5synth, h5py, hw, hwc):
         want = w * wc[..., np.newaxis]
         if not np.allclose(got, want, rtol=RTOL):
             return [(f'v3 file (weights {"present" if hw else "absent"}, weights_channel {"present" if hwc else "absent"}): d.weights[:] != weights * weights_channel with absent arrays read as one', dict(kind='v3file', hw=hw, hwc=hwc))]
+        # indexed reads, scalars included, of the file opened with and without keepdims=True: the product of the two
+        # stored arrays at the requested elements (keepdims only keeps the indexed-away axes as axes of length 1)
+        import katdal
+        Tn, Fn, Bn = want.shape
+        t, f, b = ctx.rng.randrange(Tn), ctx.rng.randrange(Fn), ctx.rng.randrange(Bn)
+        keys = [(t,), (t, slice(0, Fn)), (t, f), (slice(None), f), (slice(None), slice(None), b), (t, slice(None), b),
+                (slice(0, Tn, 2), f, b), (t, f, b)]
+        for keep in (False, True):
+            dk = katdal.open(path, keepdims=True) if keep else d
+            for key in keys:
+                kk = tuple(slice(k, k + 1) if (keep and isinstance(k, int)) else k for k in key)
+                exp = want[kk]
+                try:
+                    gotk = np.asarray(dk.weights[key])
+                    visshape = np.asarray(dk.vis[key]).shape
+                except Exception as e:   # noqa: BLE001
+                    return [(f'v3 file opened with keepdims={keep}: d.weights[{key}] raised {type(e).__name__}: '
+                             f'{str(e)[:100]}', dict(kind='v3file', hw=hw, hwc=hwc))]
+                if gotk.shape != exp.shape or gotk.shape != visshape or not np.allclose(gotk, exp, rtol=RTOL):
+                    return [(f'v3 file opened with keepdims={keep}: d.weights[{key}] has shape {gotk.shape} (vis: '
+                             f'{visshape}) values {gotk.ravel()[:4].tolist()}, the product of the stored arrays there has '
+                             f'shape {exp.shape} values {exp.ravel()[:4].tolist()}', dict(kind='v3file', hw=hw, hwc=hwc))]
+        ctx.tag('v3-h5synth-indexed-keepdims')
         return []
     finally:
         shutil.rmtree(tmp, ignore_errors=True)
